@@ -76,7 +76,7 @@ def build_repo(kind="rel"):
             if d.startswith("b_") and d != "b_" + h and os.path.isdir(p):
                 # stale generation; remove unless very recent (another check may be using it)
                 try:
-                    if time.time() - os.path.getmtime(p) > 6 * 3600:
+                    if time.time() - os.path.getmtime(p) > 1800:
                         shutil.rmtree(p, ignore_errors=True)
                 except OSError:
                     pass
